@@ -237,6 +237,7 @@ type Item struct {
 }
 
 type VC struct {
+	constDone map[string]bool
 	w        *World
 	Name     string
 	decls    []string
@@ -412,6 +413,21 @@ func (vc *VC) compDecl(comp, sort string) {
 }
 
 func (vc *VC) hget(h *Heap, comp string) string {
+	if vc.w.isConstGlobal(comp) {
+		// package-level variable with a declared invariant: never written
+		// outside the package initialiser (obligation "sites ... global"),
+		// so every heap holds the same value
+		n := qsym(comp + "@const")
+		if !vc.constDone[n] {
+			if vc.constDone == nil {
+				vc.constDone = map[string]bool{}
+			}
+			vc.constDone[n] = true
+			vc.declConst(n, vc.compSort[comp])
+			vc.wellFormedComp(comp, n)
+		}
+		return n
+	}
 	if v, ok := h.m[comp]; ok {
 		return v
 	}
